@@ -97,6 +97,15 @@ Qed.
 Lemma ht_param (P : server -> Prop) m i : ht P (param m i) (fun _ => P).
 Proof. unfold param. destruct (nth_error _ _); [apply ht_ret_pres|apply ht_panic]. Qed.
 
+Lemma ht_elim {A} (P : server -> Prop) (m : M A) Q :
+  ht P m Q -> forall sv r, P sv -> match m sv r with Ok (a, sv', _) => Q a sv' | _ => True end.
+Proof. intros H. exact H. Qed.
+Lemma ht_intro {A} (P : server -> Prop) (m : M A) (Q : A -> server -> Prop) :
+  (forall sv r, P sv -> match m sv r with Ok (a, sv', _) => Q a sv' | _ => True end) -> ht P m Q.
+Proof. intros H. exact H. Qed.
+(* from here on triples are only built with the rules above: [apply] must not look inside *)
+Global Opaque ht.
+
 (* structural steps: values that matter (everything but unit) are pushed into the continuation *)
 Ltac ht_struct :=
   lazymatch goal with
@@ -238,11 +247,13 @@ Ltac nv_validchan :=
           first [ assumption
                 | match goal with Hx : negb (valid_chan ?n) = false |- valid_chan ?n = true => apply negb_false_iff in Hx; exact Hx end ] ].
 Ltac nv_prim :=
-  first [ apply nv_updSess; nv_sess_side
-        | apply nv_updChan; intros ?; reflexivity
-        | apply ht_modS; nv_mod
-        | apply nv_add_member; nv_validchan
-        | apply nv_create_session ].
+  lazymatch goal with
+  | |- ht NV (updSess _ _) _ => apply nv_updSess; nv_sess_side
+  | |- ht NV (updChan _ _) _ => apply nv_updChan; intros ?; reflexivity
+  | |- ht NV (modS _) _ => apply ht_modS; nv_mod
+  | |- ht NV (add_member _ _ _ _ _) _ => apply nv_add_member; nv_validchan
+  | |- ht NV (create_session _ _ _) _ => apply nv_create_session
+  end.
 Ltac nv_go := repeat first [ ht_struct | assumption | progress unf | nv_prim | ht_named ].
 
 Section NamesHandlers.
@@ -384,8 +395,8 @@ Lemma px_updSess X k f :
   (forall s, s_nick (f s) = s_nick s /\ s_server (f s) = s_server s) ->
   ht (fun sv => NV sv /\ SF X k sv) (updSess k f) (fun _ sv => NV sv /\ SF X k sv).
 Proof.
-  intros Hf sv r [H1 H2]. split.
-  - apply (nv_updSess k f (fun s Hs => eq_ind_r nickok Hs (proj1 (Hf s))) sv r H1).
+  intros Hf. apply ht_intro. intros sv r [H1 H2]. split.
+  - apply (ht_elim _ _ _ (nv_updSess k f (fun s Hs => eq_ind_r nickok Hs (proj1 (Hf s)))) sv r H1).
   - intros s'. cbn [sv_sessions set_sessions]. rewrite lookup_upd_sess, bool_decide_true by reflexivity.
     destruct (sv_sessions sv !! k) as [s|] eqn:E; [|discriminate]. cbn. intros [= <-]. rewrite (proj2 (Hf s)). now apply H2.
 Qed.
@@ -469,19 +480,19 @@ Theorem nv_apply_entry e sv en sv' :
 Proof.
   intros H Hok. destruct en as [id un auth|id un session q|id un session cmid ra data|id un session cmid data|id un rev parsed];
     cbn [apply_entry].
-  - pose proof (nv_create_session (id, 0%N) auth (timestamp id un) sv (RCtx id []) H) as Hc.
+  - pose proof (ht_elim _ _ _ (nv_create_session (id, 0%N) auth (timestamp id un)) sv (RCtx id []) H) as Hc.
     destruct (create_session _ _ _ sv _) as [[[[] sv1] r1]|?|?]; cbn; try discriminate; intros [= <-]; exact Hc.
   - destruct (sv_sessions sv !! (session, 0%N)); [|cbn; intros [= <-]; exact H].
     destruct (StrLemmas.parse_quit q) as [ps Hq]. rewrite Hq. unfold run_handler.
     assert (HX : SF (nick_msg_ok (Some (IMsg None "QUIT" ps))) (session, 0%N) sv).
     { intros s0 _ _ m0 [= <-] Hu. vm_compute in Hu. discriminate. }
-    pose proof (nv_process_message e (session, 0%N) "" _ sv (RCtx id []) (conj H HX)) as Hp.
+    pose proof (ht_elim _ _ _ (nv_process_message e (session, 0%N) "" _) sv (RCtx id []) (conj H HX)) as Hp.
     destruct (process_message _ _ _ _ sv _) as [[[[] sv1] r1]|?|?]; cbn; try discriminate.
     intros [= <-]. apply NV_maybe_delete_session, NV_set_lastProcessed, Hp.
   - destruct (is_retry _ _ sv); [cbn; intros [= <-]; exact H|].
     destruct (update_last_cmid _ _ _ _ sv) as [sv1|] eqn:Hu; [|cbn; intros [= <-]; exact H].
     destruct (NV_update_last_cmid _ _ _ _ _ _ Hu H) as [H1 HX]. unfold run_handler.
-    pose proof (nv_process_message e (session, 0%N) ra _ sv1 (RCtx id []) (conj H1 (HX _ Hok))) as Hp.
+    pose proof (ht_elim _ _ _ (nv_process_message e (session, 0%N) ra _) sv1 (RCtx id []) (conj H1 (HX _ Hok))) as Hp.
     destruct (process_message _ _ _ _ sv1 _) as [[[[] sv2] r2]|?|?]; cbn; try discriminate.
     intros [= <-]. apply NV_maybe_delete_session, NV_set_lastProcessed, Hp.
   - destruct (update_last_cmid _ _ _ _ sv) as [sv1|] eqn:Hu; cbn; intros [= <-]; [|exact H].
@@ -604,7 +615,7 @@ Section Limits.
   (* createSessionLocked: the test and the insertion see the same table *)
   Lemma lim_create_session key auth ts : ht Lim (create_session key auth ts) (fun _ => Lim).
   Proof.
-    intros sv r H. unfold create_session, bindM, getS. cbv zeta.
+    apply ht_intro. intros sv r H. unfold create_session, bindM, getS. cbv zeta.
     destruct ((g_maxSessions (sv_config sv) <=? N.of_nat (size (sv_sessions sv)))%N && (0 <? g_maxSessions (sv_config sv))%N) eqn:Hg;
       [exact H|]. cbn. apply room_guard in Hg. destruct H as [h1 h2 h3 h4]. unfold max_sessions in h1. rewrite h1 in Hg.
     split; [exact h1|exact h2| |exact h4]. destruct Hg as [Hg|Hg]; [now left|right].
@@ -616,7 +627,7 @@ Section Limits.
   Lemma ht_p1_term {A} C (m : M A) : ht (P1 C) m (fun _ => P1 C) -> ht (P1 C) m (fun _ => Lim).
   Proof. apply ht_post. intros _ sv [H _]. exact H. Qed.
   Lemma p1_updSess C k f : ht (P1 C) (updSess k f) (fun _ => P1 C).
-  Proof. intros sv r [H1 H2]. split; [apply (lim_updSess k f sv r H1)|exact H2]. Qed.
+  Proof. apply ht_intro. intros sv r [H1 H2]. split; [apply (ht_elim _ _ _ (lim_updSess k f) sv r H1)|exact H2]. Qed.
   Lemma lim_add_member C lc c0 n tk op :
     is_Some (C !! lc) \/ Lc = 0%N \/ (N.of_nat (size C) < Lc)%N ->
     ht (P1 C) (add_member lc c0 n tk op) (fun _ => Lim).
@@ -644,8 +655,13 @@ Section Limits.
     let sv := fresh "sv" in let H := fresh "H" in intros sv H;
     apply (Lim_mono sv _ H); [reflexivity|reflexivity|lim_size|lim_size].
   Ltac lim_prim :=
-    first [ apply lim_updSess | apply lim_updChan | apply lim_create_session | apply p1_updSess
-          | lazymatch goal with |- ht Lim (modS _) _ => apply ht_modS; lim_mod end ].
+    lazymatch goal with
+    | |- ht Lim (updSess _ _) _ => apply lim_updSess
+    | |- ht (P1 _) (updSess _ _) _ => apply p1_updSess
+    | |- ht Lim (updChan _ _) _ => apply lim_updChan
+    | |- ht Lim (create_session _ _ _) _ => apply lim_create_session
+    | |- ht Lim (modS _) _ => apply ht_modS; lim_mod
+    end.
   Ltac p1_add :=
     lazymatch goal with
     | |- ht (P1 _) (bindM (add_member _ _ _ _ _) _) _ => apply ht_bind with (R := fun _ => Lim); [apply lim_add_member|intros _]
@@ -657,7 +673,8 @@ Section Limits.
     | |- ht _ (let _ := _ in _) _ => fail
     | |- ht (P1 _) _ (fun _ => Lim) => apply ht_p1_term
     end.
-  Ltac lim_go := repeat first [ p1_add | ht_struct | assumption | progress unf | lim_prim | p1_term | ht_named ].
+  Ltac lim_step := first [ p1_add | ht_struct | assumption | progress unf | lim_prim | p1_term | ht_named ].
+  Ltac lim_go := repeat lim_step.
   (* the side condition of [lim_add_member] from what the handler tested *)
   Ltac room :=
     first [ left; eexists; eassumption
@@ -705,5 +722,153 @@ Section Limits.
     apply p1_enter. intros sv Hsv. cbv zeta.
     lim_go; try apply p1_verify_captcha; try apply lim_cmd_mode; try apply lim_cmd_topic; try apply lim_cmd_names.
     all: room.
+  Qed.
+  Lemma lim_cmd_join e k m : ht Lim (cmd_join e k m) (fun _ => Lim).
+  Proof. unfold cmd_join. lim_go; try apply lim_join_one. Qed.
+  Lemma lim_cmd_part k m : ht Lim (cmd_part k m) (fun _ => Lim).
+  Proof. unfold cmd_part. lim_go. Qed.
+  Lemma lim_cmd_kick k m : ht Lim (cmd_kick k m) (fun _ => Lim).
+  Proof. unfold cmd_kick. lim_go. Qed.
+  Lemma lim_cmd_invite k m : ht Lim (cmd_invite k m) (fun _ => Lim).
+  Proof. unfold cmd_invite. lim_go. Qed.
+  Lemma lim_cmd_privmsg k m : ht Lim (cmd_privmsg k m) (fun _ => Lim).
+  Proof. unfold cmd_privmsg. lim_go. Qed.
+  Lemma lim_cmd_service_alias k m : ht Lim (cmd_service_alias k m) (fun _ => Lim).
+  Proof. unfold cmd_service_alias. lim_go; try apply lim_cmd_privmsg. Qed.
+  Lemma lim_cmd_who k m : ht Lim (cmd_who k m) (fun _ => Lim).
+  Proof. unfold cmd_who. lim_go. Qed.
+  Lemma lim_cmd_whois k m : ht Lim (cmd_whois k m) (fun _ => Lim).
+  Proof. unfold cmd_whois. lim_go. Qed.
+  Lemma lim_cmd_list k m : ht Lim (cmd_list k m) (fun _ => Lim).
+  Proof. unfold cmd_list. lim_go. Qed.
+  Lemma lim_cmd_away k m : ht Lim (cmd_away k m) (fun _ => Lim).
+  Proof. unfold cmd_away. lim_go. Qed.
+  Lemma lim_cmd_ison k m : ht Lim (cmd_ison k m) (fun _ => Lim).
+  Proof. unfold cmd_ison. lim_go. Qed.
+  Lemma lim_cmd_userhost k m : ht Lim (cmd_userhost k m) (fun _ => Lim).
+  Proof. unfold cmd_userhost. lim_go. Qed.
+  Lemma lim_cmd_knock k m : ht Lim (cmd_knock k m) (fun _ => Lim).
+  Proof. unfold cmd_knock. lim_go. Qed.
+  Lemma lim_cmd_ping k m : ht Lim (cmd_ping k m) (fun _ => Lim).
+  Proof. unfold cmd_ping. lim_go. Qed.
+  Lemma lim_cmd_quit k m : ht Lim (cmd_quit k m) (fun _ => Lim).
+  Proof. unfold cmd_quit. lim_go; try apply lim_delete_session. Qed.
+  Lemma lim_cmd_kill k m : ht Lim (cmd_kill k m) (fun _ => Lim).
+  Proof. unfold cmd_kill. lim_go; try apply lim_delete_session. Qed.
+  Lemma lim_cmd_gline k m : ht Lim (cmd_gline k m) (fun _ => Lim).
+  Proof. unfold cmd_gline. lim_go; try apply lim_cmd_kill. Qed.
+  (* services *)
+  Lemma lim_burst_one sv t : ht Lim (burst_one sv t) (fun _ => Lim).
+  Proof. unfold burst_one. lim_go. Qed.
+  Lemma lim_cmd_server k m : ht Lim (cmd_server k m) (fun _ => Lim).
+  Proof. unfold cmd_server. lim_go; try apply lim_burst_one. Qed.
+  Lemma lim_cmd_server_nick k m : ht Lim (cmd_server_nick k m) (fun _ => Lim).
+  Proof. unfold cmd_server_nick. lim_go. Qed.
+  Lemma lim_quit_pseudo tk m : ht Lim (quit_pseudo tk m) (fun _ => Lim).
+  Proof. unfold quit_pseudo. lim_go; try apply lim_delete_session. Qed.
+  Lemma lim_cmd_server_quit k m : ht Lim (cmd_server_quit k m) (fun _ => Lim).
+  Proof. unfold cmd_server_quit. lim_go; try apply lim_delete_session; try apply lim_quit_pseudo. Qed.
+  Lemma lim_cmd_server_kill k m : ht Lim (cmd_server_kill k m) (fun _ => Lim).
+  Proof. unfold cmd_server_kill. lim_go; try apply lim_delete_session. Qed.
+  Lemma lim_cmd_server_join k m : ht Lim (cmd_server_join k m) (fun _ => Lim).
+  Proof.
+    unfold cmd_server_join. apply ht_bind_param. intros p0 _. apply ht_forM. intros ch.
+    apply p1_enter. intros sv Hsv. cbv zeta. lim_go. all: room.
+  Qed.
+  Lemma lim_cmd_server_part k m : ht Lim (cmd_server_part k m) (fun _ => Lim).
+  Proof. unfold cmd_server_part. lim_go. Qed.
+  Lemma lim_cmd_server_kick k m : ht Lim (cmd_server_kick k m) (fun _ => Lim).
+  Proof. unfold cmd_server_kick. lim_go. Qed.
+  Lemma lim_cmd_server_svsjoin k m : ht Lim (cmd_server_svsjoin k m) (fun _ => Lim).
+  Proof.
+    unfold cmd_server_svsjoin. apply ht_bind_param. intros p0 _. apply ht_bind_param. intros ch _.
+    apply p1_enter. intros sv Hsv. cbv zeta. lim_go; try apply lim_cmd_topic; try apply lim_cmd_names. all: room.
+  Qed.
+  Lemma lim_cmd_server_svspart k m : ht Lim (cmd_server_svspart k m) (fun _ => Lim).
+  Proof. unfold cmd_server_svspart. lim_go. Qed.
+  Lemma lim_cmd_server_svsnick k m : ht Lim (cmd_server_svsnick k m) (fun _ => Lim).
+  Proof. unfold cmd_server_svsnick. lim_go. Qed.
+  Lemma lim_cmd_server_mode k m : ht Lim (cmd_server_mode k m) (fun _ => Lim).
+  Proof. unfold cmd_server_mode. lim_go. Qed.
+  Lemma lim_cmd_server_topic k m : ht Lim (cmd_server_topic k m) (fun _ => Lim).
+  Proof. unfold cmd_server_topic. lim_go. Qed.
+  Lemma lim_cmd_server_invite k m : ht Lim (cmd_server_invite k m) (fun _ => Lim).
+  Proof. unfold cmd_server_invite. lim_go. Qed.
+  Lemma lim_cmd_server_privmsg k m : ht Lim (cmd_server_privmsg k m) (fun _ => Lim).
+  Proof. unfold cmd_server_privmsg. lim_go. Qed.
+  Lemma lim_cmd_server_svshold k m : ht Lim (cmd_server_svshold k m) (fun _ => Lim).
+  Proof. unfold cmd_server_svshold. lim_go. Qed.
+  Lemma lim_cmd_server_svsmode k m : ht Lim (cmd_server_svsmode k m) (fun _ => Lim).
+  Proof. unfold cmd_server_svsmode. lim_go. Qed.
+
+  Lemma lim_dispatch name minp (f : handler) e k m : In (name, (minp, f)) commands -> ht Lim (f e k m) (fun _ => Lim).
+  Proof.
+    intros Hin. unfold commands in Hin.
+    repeat (destruct Hin as [Hin|Hin]; [injection Hin as <- <- <-|]); try contradiction; unfold noenv;
+      first [ apply lim_cmd_service_alias | apply lim_cmd_away | apply lim_cmd_gline | apply lim_cmd_invite | apply lim_cmd_ison
+            | apply lim_cmd_join | apply lim_cmd_kick | apply lim_cmd_kill | apply lim_cmd_knock | apply lim_cmd_list | apply lim_cmd_mode
+            | apply lim_cmd_motd | apply lim_cmd_names | apply lim_cmd_nick | apply lim_cmd_oper | apply lim_cmd_part | apply lim_cmd_pass
+            | apply lim_cmd_ping | apply lim_cmd_privmsg | apply lim_cmd_quit | apply lim_cmd_topic | apply lim_cmd_user
+            | apply lim_cmd_userhost | apply lim_cmd_who | apply lim_cmd_whois | apply lim_cmd_server
+            | apply lim_cmd_server_invite | apply lim_cmd_server_join | apply lim_cmd_server_kick | apply lim_cmd_server_kill
+            | apply lim_cmd_server_mode | apply lim_cmd_server_nick | apply lim_cmd_server_part | apply lim_cmd_server_privmsg
+            | apply lim_cmd_server_quit | apply lim_cmd_server_svshold | apply lim_cmd_server_svsjoin | apply lim_cmd_server_svsmode
+            | apply lim_cmd_server_svsnick | apply lim_cmd_server_svspart | apply lim_cmd_server_topic ].
+  Qed.
+
+  Lemma lim_process_message e k ra ircmsg : ht Lim (process_message e k ra ircmsg) (fun _ => Lim).
+  Proof.
+    unfold process_message. apply ht_bind_pres; [lim_go|]. intros s.
+    destruct ircmsg as [m|]; [|lim_go]. cbv zeta.
+    apply ht_bind_pres.
+    { destruct (_ && _); [|apply ht_ret_pres]. lim_go; apply lim_delete_session. }
+    intros banned. destruct banned; [apply ht_ret_pres|].
+    apply ht_bind_pres; [lim_go|]. intros s1.
+    destruct (_ && _ && _).
+    { lim_go; apply lim_delete_session. }
+    destruct (assoc_str _ commands) as [[minp f]|] eqn:Hc; [|lim_go].
+    destruct (Nat.ltb _ _); [lim_go|].
+    eapply lim_dispatch. eapply assoc_str_In. exact Hc.
+  Qed.
+
+  Lemma Lim_maybe_delete_session k sv : Lim sv -> Lim (maybe_delete_session k sv).
+  Proof.
+    intros H. unfold maybe_delete_session. destruct (sv_sessions sv !! k) as [s|]; [|exact H].
+    assert (H1 : Lim (if s_server s || s_operator s
+                      then set_sessions (base.filter (fun kv : N * N * session => s_deleted kv.2 = false)) sv else sv)).
+    { destruct (s_server s || s_operator s); [|exact H]. apply (Lim_mono sv _ H); try reflexivity.
+      cbn [sv_sessions set_sessions]. apply size_filter_le. }
+    destruct (s_deleted s); [|exact H1]. eapply Lim_mono; [exact H1|reflexivity|reflexivity| |reflexivity].
+    cbn [sv_sessions set_sessions]. apply size_delete_le.
+  Qed.
+  Lemma Lim_update_last_cmid k ts d c sv sv1 : update_last_cmid k ts d c sv = Some sv1 -> Lim sv -> Lim sv1.
+  Proof.
+    unfold update_last_cmid. destruct (sv_sessions sv !! k) as [s|] eqn:E; [|discriminate]. intros [= <-] H.
+    apply (Lim_mono sv _ H); try reflexivity. cbn [sv_sessions set_sessions].
+    rewrite map_size_insert_Some; [reflexivity|now rewrite E].
+  Qed.
+
+  (* every entry other than a configuration change *)
+  Lemma Lim_apply_entry e sv en sv' :
+    Lim sv -> (forall id un rev g, en <> EConfig id un rev (Some g)) ->
+    entry_result (apply_entry e sv en) = Some sv' -> Lim sv'.
+  Proof.
+    intros H Hnc. destruct en as [id un auth|id un session q|id un session cmid ra data|id un session cmid data|id un rev parsed];
+      cbn [apply_entry].
+    - pose proof (ht_elim _ _ _ (lim_create_session (id, 0%N) auth (timestamp id un)) sv (RCtx id []) H) as Hc.
+      destruct (create_session _ _ _ sv _) as [[[[] sv1] r1]|?|?]; cbn; try discriminate; intros [= <-]; exact Hc.
+    - destruct (sv_sessions sv !! (session, 0%N)); [|cbn; intros [= <-]; exact H]. unfold run_handler.
+      pose proof (ht_elim _ _ _ (lim_process_message e (session, 0%N) "" (parse_message ("QUIT :" ++ q))) sv (RCtx id []) H) as Hp.
+      destruct (process_message _ _ _ _ sv _) as [[[[] sv1] r1]|?|?]; cbn; try discriminate.
+      intros [= <-]. apply Lim_maybe_delete_session. exact Hp.
+    - destruct (is_retry _ _ sv); [cbn; intros [= <-]; exact H|].
+      destruct (update_last_cmid _ _ _ _ sv) as [sv1|] eqn:Hu; [|cbn; intros [= <-]; exact H].
+      pose proof (Lim_update_last_cmid _ _ _ _ _ _ Hu H) as H1. unfold run_handler.
+      pose proof (ht_elim _ _ _ (lim_process_message e (session, 0%N) ra (parse_message data)) sv1 (RCtx id []) H1) as Hp.
+      destruct (process_message _ _ _ _ sv1 _) as [[[[] sv2] r2]|?|?]; cbn; try discriminate.
+      intros [= <-]. apply Lim_maybe_delete_session. exact Hp.
+    - destruct (update_last_cmid _ _ _ _ sv) as [sv1|] eqn:Hu; cbn; intros [= <-]; [|exact H].
+      apply (Lim_update_last_cmid _ _ _ _ _ _ Hu H).
+    - destruct parsed as [g|]; [exfalso; eapply Hnc; reflexivity|]. cbn. intros [= <-]. exact H.
   Qed.
 End Limits.
